@@ -172,3 +172,99 @@ Definition noargs_is_default : bool :=
   existsb (fun c => cfg_name_eqb c noargs_config && table_eqb (cfg_table c) (cfg_table noargs_config)
                     && forallb (fun t => str_in t (cfg_transients noargs_config)) (cfg_transients c)
                     && forallb (fun t => str_in t (cfg_transients c)) (cfg_transients noargs_config)) cli_configs.
+
+(* ---------------------------------------------------------------------------------------------------------
+   Executable prediction used by the correspondence check (harness/c03_common.py: dispatcher_correspondence).
+   The real dispatcher is run on a builder holding three conflicted decisions
+       plain   : action "base", no strategy mark, value at its path is not a dict
+       marked  : action "custom", carries a strategy mark
+       dictval : action "base", no mark, its path points at a dict item
+   with the resolve_strategy_* callees and nbdime.log replaced by recorders.  [probe_expected] says what must be observed
+   for the arm that the generated chain selects. *)
+Record probe_obs := {
+  po_ret : option pystr;                 (* tryresolve's return value *)
+  po_raise : option pystr;               (* exception class name *)
+  po_events : list pystr;                (* "called:<function>", "error", "warning"; duplicates removed, sorted by the harness *)
+  po_decs : list (pystr * bool)          (* (action, conflict) of every decision afterwards *)
+}.
+
+Definition err_name (e : err) : pystr :=
+  match e with
+  | AssertionError => of_ascii "AssertionError" | KeyError => of_ascii "KeyError" | IndexError => of_ascii "IndexError"
+  | RuntimeError => of_ascii "RuntimeError" | NBDiffFormatError => of_ascii "NBDiffFormatError"
+  | ValueError => of_ascii "ValueError" | TypeError => of_ascii "TypeError" | OutOfFuel => of_ascii "OutOfFuel"
+  end.
+
+Definition probe_initial : list (pystr * bool) :=
+  [(of_ascii "base", true); (of_ascii "custom", true); (of_ascii "base", true)].
+
+(* str.replace(prefix, "") for a strategy that starts with the prefix and does not contain it again *)
+Definition strip_prefix (pre s : pystr) : pystr := skipn (List.length pre) s.
+
+Definition probe_set (a : pystr) (skip_marked unless_dict : bool) : list (pystr * bool) :=
+  [(a, false);
+   (if skip_marked then (of_ascii "custom", true) else (a, false));
+   (if unless_dict then (of_ascii "base", true) else (a, false))].
+
+Definition probe_expected (is_try : bool) (oa : option arm) (s : pystr) : probe_obs :=
+  let same := {| po_ret := None; po_raise := None; po_events := []; po_decs := probe_initial |} in
+  match oa with
+  | None => same
+  | Some (ArmAction a) =>
+      {| po_ret := Some a; po_raise := None; po_events := []; po_decs := probe_initial ++ [(a, false)] |}
+  | Some (ArmSetAction a skip ud) =>
+      {| po_ret := None; po_raise := None; po_events := []; po_decs := probe_set a skip ud |}
+  | Some (ArmUseSide pre skip) =>
+      {| po_ret := None; po_raise := None; po_events := []; po_decs := probe_set (strip_prefix pre s) skip false |}
+  | Some (ArmRaise e) =>
+      {| po_ret := None; po_raise := Some (err_name e); po_events := [of_ascii "error"]; po_decs := probe_initial |}
+  | Some ArmPass => same
+  | Some (ArmCall f) =>
+      if str_eqb f (of_ascii "inline:clear-all")
+      then {| po_ret := None; po_raise := None; po_events := []; po_decs := [(of_ascii "custom", false)] |}
+      else {| po_ret := None; po_raise := None; po_events := [of_ascii "called:" ++ f]; po_decs := probe_initial |}
+  | Some ArmLogError =>
+      {| po_ret := None; po_raise := None; po_events := [of_ascii "error"]; po_decs := probe_initial |}
+  | Some ArmWarn =>
+      {| po_ret := None; po_raise := None; po_events := [of_ascii "warning"]; po_decs := probe_initial |}
+  | Some ArmGeneric => same
+  end.
+
+Definition opt_str_eqb (a b : option pystr) : bool :=
+  match a, b with Some x, Some y => str_eqb x y | None, None => true | _, _ => false end.
+
+Fixpoint strs_eqb (a b : list pystr) : bool :=
+  match a, b with
+  | [], [] => true
+  | x :: a', y :: b' => str_eqb x y && strs_eqb a' b'
+  | _, _ => false
+  end.
+
+Fixpoint decs_eqb (a b : list (pystr * bool)) : bool :=
+  match a, b with
+  | [], [] => true
+  | (x, c) :: a', (y, d) :: b' => str_eqb x y && Bool.eqb c d && decs_eqb a' b'
+  | _, _ => false
+  end.
+
+Definition probe_obs_eqb (a b : probe_obs) : bool :=
+  opt_str_eqb (po_ret a) (po_ret b) && opt_str_eqb (po_raise a) (po_raise b)
+  && strs_eqb (po_events a) (po_events b) && decs_eqb (po_decs a) (po_decs b).
+
+Definition dispatcher_by_index (i : nat) : dispatcher_src :=
+  match i with
+  | 0 => src_tryresolve
+  | 1 => src_resolve_strategy_generic
+  | 2 => src_resolve_conflicted_decisions_list
+  | 3 => src_resolve_conflicted_decisions_dict
+  | _ => src_resolve_conflicted_decisions_strings
+  end.
+
+(* indices of the cases where the implementation's observation differs from the prediction *)
+Fixpoint probe_mismatches (i : nat) (cases : list (nat * pystr * probe_obs)) : list nat :=
+  match cases with
+  | [] => []
+  | (d, s, o) :: rest =>
+      let e := probe_expected (Nat.eqb d 0) (final_arm (dispatcher_by_index d) s) s in
+      (if probe_obs_eqb e o then [] else [i]) ++ probe_mismatches (S i) rest
+  end.
